@@ -16,6 +16,7 @@ From MV Require Import Base.PyStr Base.Res Nest.Lines Nest.Split Nest.Nest Nest.
   Nest.RefutedProofs Nest.FenceProofs Nest.ShiftProofs Gen.NestSrc Nest.NestSrcProofs.
 Import ListNotations.
 Open Scope N_scope.
+From MV Require Import Nest.C06Lemmas.
 
 (* For every token (headings too when the current node is not a document/section; otherwise
    wherever no heading is rendered at section level), at any fuel, from any state whose current
@@ -48,13 +49,7 @@ Theorem C06_directive_transparent :
         den_tokens env orc F true (sh0 e') toks = Ok (ns, h, false) ->
         render_doc env orc F e0 (unlines X) = Ok (ns, h)
         /\ den_text_at env orc F false 0 (sh0 e0) (unlines X) 0 = Ok (ns, h, false)).
-Proof.
-  intros env orc Hadm Hfence w X F e0 Hwf. split.
-  - intros r Hr. exact (directive_transparent env orc Hadm Hfence w X F e0 r Hwf Hr).
-  - intros toks e' ns h HP Hfm Hden. split.
-    + exact (top_level_is_den env orc Hadm F e0 (unlines X) toks e' ns h HP Hden).
-    + exact (den_text_at_0 env orc F (sh0 e0) (unlines X) toks e' ns h HP Hfm Hden).
-Qed.
+Proof. exact C06_directive_transparent_l. Qed.
 Print Assumptions C06_directive_transparent.
 
 Theorem C06_backtick_colon_same :
@@ -211,11 +206,7 @@ Theorem C06_line_shift_equivariant :
   /\ (forall f top ho h text k,
         den_text_at env orc f top ho h text k
         = map_res (shift_dres env k) (den_text_at env orc f top ho h text 0)).
-Proof.
-  intros env orc Hadm Hs. split.
-  - intros f. exact (den_tok_shift env orc Hadm Hs f).
-  - intros f top ho h text k. exact (den_text_at_shift env orc Hadm Hs f top ho h text k).
-Qed.
+Proof. exact C06_line_shift_equivariant_l. Qed.
 Print Assumptions C06_line_shift_equivariant.
 
 (* ... so for one admonition layer (any fence, any option layout accepted by the splitter): the
@@ -243,7 +234,7 @@ Print Assumptions C06_directive_transparent_lines.
    detects fences by the line model of Fence.v (validated against markdown-it by the
    correspondence), satisfies both. *)
 Theorem C06_oracles_satisfiable : adm_spec bool toy /\ fence_oracle bool toy.
-Proof. split; [exact toy_adm_spec | exact toy_fence_oracle]. Qed.
+Proof. exact C06_oracles_satisfiable_l. Qed.
 Print Assumptions C06_oracles_satisfiable.
 
 (* ---- the same, for the code regenerated from the source on this run (Gen/NestSrc.v) ----
@@ -270,27 +261,14 @@ Theorem C06_src_is_model :
         render_substitution_src env orc rec s inline key mp = render_substitution env orc rec s inline key mp)
   /\ (forall f s t, render_tok_src env orc f s t = render_tok env orc f s t)
   /\ (forall f e text, render_doc_src env orc f e text = render_doc env orc f e text).
-Proof.
-  intros env orc Hadm. repeat split; intros.
-  - apply nested_render_text_src_model.
-  - apply nested_parse_src_model.
-  - apply (render_fence_src_model env orc Hadm).
-  - apply (render_colon_fence_src_model env orc Hadm).
-  - apply (run_directive_src_model env orc Hadm).
-  - apply render_substitution_src_model.
-  - apply (render_tok_src_model env orc Hadm).
-  - apply (render_doc_src_model env orc Hadm).
-Qed.
+Proof. exact C06_src_is_model_l. Qed.
 Print Assumptions C06_src_is_model.
 
 Theorem C06_nested_restores_src :
   forall (env : Type) (orc : oracles env) rr (s s' : st env) text lineno inline tr ho,
     nested_render_text_src env orc rr s text lineno inline tr ho = Ok s' ->
     hoff s' = hoff s /\ (tr <> None -> lmap s' = lmap s /\ troot s' = troot s).
-Proof.
-  intros env orc rr s s' text lineno inline tr ho H. rewrite nested_render_text_src_model in H.
-  exact (nested_restores env orc rr s s' text lineno inline tr ho H).
-Qed.
+Proof. exact C06_nested_restores_src_l. Qed.
 Print Assumptions C06_nested_restores_src.
 
 (* the renderer with the translated methods threads one registry state through a wrapper token
@@ -306,13 +284,7 @@ Theorem C06_registries_shared_src :
     den_fold (den_tok env orc f top (hoff s)) hm after = Ok (na, ha, false) ->
     fold_res (render_tok_src env orc f) s (before ++ mid1 ++ after) = ext env s (nb ++ n1 ++ na) ha
     /\ fold_res (render_tok_src env orc f) s (before ++ mid2 ++ after) = ext env s (nb ++ n2 ++ na) ha.
-Proof.
-  intros env orc Hadm f top s before mid1 mid2 after nb hb n1 n2 hm na ha Hg Hb H1 H2 Ha.
-  destruct (registries_shared env (den_tok env orc f top (hoff s)) (shr s) before mid1 mid2 after
-              nb hb n1 n2 hm Hb H1 H2 na ha false Ha) as [R1 R2].
-  split; rewrite (fold_res_ext _ _ (render_tok_src_model env orc Hadm f));
-    apply (sim_fold env _ _ (sim_tok env orc Hadm f) top); assumption.
-Qed.
+Proof. exact C06_registries_shared_src_l. Qed.
 Print Assumptions C06_registries_shared_src.
 
 Theorem C06_subst_transparent_src :
@@ -325,11 +297,7 @@ Theorem C06_subst_transparent_src :
       = Ok (ns, h2, false) ->
     render_doc_src env orc (S f) e0 text
     = Ok (ns, set_subrefs (remove_all (o_sub_names orc key) (s_subrefs h2)) h2).
-Proof.
-  intros env orc Hadm f e0 text key rendered ns h2 HP Hj Hden.
-  rewrite (render_doc_src_model env orc Hadm).
-  exact (subst_transparent env orc Hadm f e0 text key rendered ns h2 HP Hj Hden).
-Qed.
+Proof. exact C06_subst_transparent_src_l. Qed.
 Print Assumptions C06_subst_transparent_src.
 
 (* "... with reference definitions ... inside it remaining usable from the rest of the
